@@ -506,7 +506,7 @@ func c14(r *Report) {
 		for _, ret := range returns(bf) {
 			for _, v := range retVals(ret, 0) {
 				for _, l := range resolveAll(v) {
-					if errClass(l) == "call:fmt.Errorf" {
+					if isFreshErr(l) {
 						nerr++
 					}
 				}
